@@ -22,7 +22,7 @@ CHECKS = {
                   "wrap/mirror extension) and polynomial-exactness oracles",
         text="Every row of the linear operator is extracted with unit "
              "impulses and compared with exact p-th order weights for every "
-             "supported configuration up to N=24 (quick) / 40 (thorough); by "
+             "supported configuration up to N=24 (quick) / 64 (thorough); by "
              "linearity this decides the property for all real fields on "
              "those grids. Generated non-cubic grids cover axis exchange and "
              "tensor variants bit-for-bit.",
@@ -211,6 +211,20 @@ CHECKS["C03"] = dict(
          "setting incl. thresholds below the size of the inputs; clean-up "
          "never raises and leaves last_accessed a subset of data.",
     design="4/C03")
+
+CHECKS["C17"] = dict(
+    technique="Hypothesis-generated points/times/parameters per solution "
+              "module; oracle: sympy differentiation of the module's own "
+              "analytical metric evaluated at 30 digits -> independent "
+              "curvature (ref4d) -> K from d_t gamma, Einstein equations for "
+              "the shipped matter, closed-form extras; first-order scaling "
+              "for ICPertFLRW; oracle self-tested on FLRW/Schwarzschild",
+    text="For every bundled solution: numeric vs symbolic metric forms, "
+         "Kdown3 = (D_i beta_j + D_j beta_i - d_t gamma_ij)/(2 alpha), "
+         "G + Lambda g = kappa T for Tdown4 or (rho, press), shipped scalars "
+         "(Kretschmann, expansion, Friedmann relations) at generated points; "
+         "residual classes separate truncated constants from wrong terms.",
+    design="4/C17")
 
 NOT_YET = "check not built yet in this session (see DESIGN.md section 4)"
 
